@@ -114,6 +114,11 @@ class EncodeState:
                     f"The value '{internal_value!r}' cannot be encoded using "
                     f"{bit_length} bits.", EncodeError)
                 raw_value = raw_value[0:bit_length // 8]
+            elif 8 * len(raw_value) < bit_length:
+                odxraise(
+                    f"The value '{internal_value!r}' is too short to be encoded using "
+                    f"{bit_length} bits.", EncodeError)
+                raw_value = raw_value.ljust((bit_length + 7) // 8, b'\x00')
 
         # ... string types, ...
         elif base_data_type in (DataType.A_UTF8STRING, DataType.A_ASCIISTRING,
@@ -134,6 +139,11 @@ class EncodeState:
                     f"The value '{internal_value!r}' cannot be encoded using "
                     f"{bit_length} bits.", EncodeError)
                 raw_value = raw_value[0:bit_length // 8]
+            elif 8 * len(raw_value) < bit_length:
+                odxraise(
+                    f"The value '{internal_value!r}' is too short to be encoded using "
+                    f"{bit_length} bits.", EncodeError)
+                raw_value = raw_value.ljust((bit_length + 7) // 8, b'\x00')
 
         # ... signed integers, ...
         elif base_data_type == DataType.A_INT32:
